@@ -69,6 +69,8 @@ type rigState struct {
 	failed  int
 	except  int
 	now     uint64
+	sc      *scenario
+	unit    *big.Int // commitment unit of the token the current tampered transaction moves
 }
 
 func scratchDir(c *kernel.Ctx, name string) string {
@@ -108,7 +110,9 @@ func runIn(c *kernel.Ctx) {
 		maxTxs = cfgT.Range(3, 16)
 	}
 	gen := txgen.New(wl, txgen.Config{Accounts: 3 + cfgT.Int(4), BlockOnly: true, Utxo: true, Validators: vals})
-	rs := &rigState{c: c, gen: gen, genesis: map[common.Address]*big.Int{}, now: 946684800 + 10}
+	rs := &rigState{c: c, gen: gen, genesis: map[common.Address]*big.Int{}, now: 946684800 + 10, unit: lkcUnit}
+	// directed part of the workload (scenario.go): on in most runs
+	rs.sc = &scenario{t: c.Tape.Fork("scenario"), on: cfgT.Pick(1, 3) == 1}
 	rs.smp.Totals = map[string]string{}
 
 	open := func(name string, isTrie bool) *txgen.Replica {
@@ -148,6 +152,13 @@ func runIn(c *kernel.Ctx) {
 	for _, v := range vals {
 		gen.KnowGenesis(v.CoinBase)
 	}
+	// Which of the two behaviours does this tree have when a contract is created
+	// at an address that already holds issued tokens? Observed once on a scratch
+	// copy of the state (never committed). If the tokens are dropped the ledger
+	// follows and the oracle reports every occurrence under a stable key
+	// (destroyed/tokens-at-address-when-contract-created-there); if they are
+	// kept, full conservation is demanded.
+	gen.L.CreationDropsTokens = creationDropsTokens(rs.T.Chain.App.GetLatestStateDB().Copy())
 	// genesis supply from the trie itself (not from what the generator asked for)
 	tot, _ := rs.enumerate()
 	for t, v := range tot {
@@ -179,6 +190,15 @@ func runIn(c *kernel.Ctx) {
 	c.Sample(rs.smp)
 }
 
+func creationDropsTokens(st *state.StateDB) bool {
+	var addr, tok common.Address
+	copy(addr[:], crypto.Keccak256([]byte("c06-probe-address"))[:20])
+	copy(tok[:], crypto.Keccak256([]byte("c06-probe-token"))[:20])
+	st.AddTokenBalance(addr, tok, big.NewInt(1))
+	st.CreateAccount(addr)
+	return st.GetTokenBalance(addr, tok).Sign() == 0
+}
+
 func nz(v *big.Int) *big.Int {
 	if v == nil {
 		return new(big.Int)
@@ -197,6 +217,12 @@ func tokName(t common.Address) string {
 func (rs *rigState) block(n int, viaPool bool) bool {
 	c, gen := rs.c, rs.gen
 	items := gen.Batch(n)
+	if extra := rs.scenarioItems(); len(extra) > 0 {
+		// directed transactions may call contracts created earlier in the same
+		// block (no code yet when the mempool looks): explicit list only
+		items = append(items, extra...)
+		viaPool = false
+	}
 	for _, it := range items {
 		if it.BlockOnly {
 			viaPool = false // the mempool's state check refuses these by design
@@ -400,6 +426,14 @@ func (rs *rigState) oracle(block *types.Block, receipts types.Receipts) bool {
 			}
 			c.Probe("lost-after-selfdestruct")
 			want.Sub(want, lost)
+		}
+		if gone := nz(L.LostAtCreation[t]); gone.Sign() > 0 {
+			// issued tokens held by an address at the moment a contract was created there
+			if c.Violate("conservation", "destroyed/tokens-at-address-when-contract-created-there", "height %d: %v of token %s held by an address vanished when a contract was created at that address (the coin it held was kept)", h, gone, tokName(t)) {
+				return false
+			}
+			c.Probe("lost-at-creation")
+			want.Sub(want, gone)
 		}
 		if forged := nz(L.Forged[t]); forged.Sign() > 0 {
 			// hidden value a deliberately unbalanced transaction claimed without owning it
